@@ -418,7 +418,9 @@ def long_cases(rng, quick):
     tuple length (~15 s for 270 items, ~60 s for 512): its sizes are even (both halves compile once) and, in the
     quick tier, stay below 512; the thorough tier also crosses the 512-item conversion loop of the lil path."""
     cs = [gen_wasserstein(rng, ("LOT_exact", "spmatrix"), long_sizes(rng)),
-          gen_wasserstein(rng, ("LOT_exact", "generator"), long_sizes(rng)),
+          # generator input with metric='cosine' hands the kernel a TUPLE of normalised arrays: numba compiles the whole
+          # kernel once per distinct chunk length (~10 s each), so the quick tier's long generator batch is euclidean
+          gen_wasserstein(rng, ("LOT_exact", "generator"), long_sizes(rng), metric="euclidean" if quick else None),
           gen_wasserstein(rng, ("LOT_exact", "lil"), rng.choice([258, 270, 300])),
           gen_wasserstein(rng, ("LOT_sinkhorn", "spmatrix"), rng.choice([65, 70, 97])),
           gen_sinkhorn(rng, rng.choice([65, 70, 97])),
